@@ -38,7 +38,8 @@ def run_one(prop, mut, src_root):
         env["VERIF_EVIDENCE_DIR"] = str(d / "evidence")
         env["VERIF_JOBS"] = str(mut.get("jobs", 4))
         env["VERIF_NO_SELFMUT"] = "1"
-        r = subprocess.run([str(ROOT / "check"), prop, "--tier", "quick"], capture_output=True, text=True, env=env,
+        cmd = [str(ROOT / "check"), prop, "--tier", "quick"] + (["--only", mut["only"]] if mut.get("only") else [])
+        r = subprocess.run(cmd, capture_output=True, text=True, env=env,
                            timeout=3600)
         failed = re.findall(r"failed obligation: (.*)", r.stdout)
         return {"id": mut["id"], "exit": r.returncode, "failed": failed[:6],
